@@ -128,7 +128,27 @@ class Repo:
             self.modules[m.name] = m
         for m in self.modules.values():
             self._collect_defs(m, m.tree, prefix=m.name, cls=None, parent=None)
+        self._apply_roles()
         self._collect_attr_types()
+
+    def _apply_roles(self):
+        """Map differently spelled locals back to the canonical spelling the rules use (sa/roles.py); in-memory AST only."""
+        from .roles import resolve_function
+        from .role_table import R
+        self.unresolved: Dict[str, List[str]] = {}
+        for q in sorted(R, key=lambda x: (x.count("."), x)):
+            fi = self.functions.get(q)
+            if fi is None:
+                continue
+            un = resolve_function(fi.node, R[q])
+            if un:
+                self.unresolved[q] = un
+        # parents maps were built before renaming: Name nodes were replaced, rebuild them
+        for m in self.modules.values():
+            m.parents.clear()
+            for parent in ast.walk(m.tree):
+                for child in ast.iter_child_nodes(parent):
+                    m.parents[id(child)] = parent
 
     def digest(self) -> str:
         h = hashlib.sha256()
